@@ -7,6 +7,11 @@ class AliasError(Exception):
     pass
 
 
+# CPython keeps a single empty tuple: every empty vector holds it, but nothing can be
+# written through it, so it is never a shared *writable* storage.
+_EMPTY_TUPLE_ID = id(())
+
+
 class _AliasTracker:
     """
     Tracks which Vector instances reference the same underlying tuple.
@@ -31,6 +36,8 @@ class _AliasTracker:
         """
         Register a Vector as sharing the tuple with key tuple_id.
         """
+        if tuple_id == _EMPTY_TUPLE_ID:
+            return
         refs = self._registry.setdefault(tuple_id, [])
         
         # clean dead refs before adding
@@ -77,6 +84,8 @@ class _AliasTracker:
         Returns True if vec is the *only* owner of tuple_id.
         Otherwise raises AliasError.
         """
+        if tuple_id == _EMPTY_TUPLE_ID:
+            return True  # the shared empty tuple has no element to write
         refs = self._registry.get(tuple_id)
         if not refs:
             return True  # nothing registered → writable
